@@ -45,6 +45,51 @@ var extraArgDocs = []argDoc{
 		[]map[string]interface{}{{}, {"b": true}, {"b": nil}, {"s": "y", "b": true}, {"s": nil}}},
 }
 
+// subscription documents over the argument family's schema, with the query type also registered
+// as the subscription root (C03 only: graphql.Subscribe = source resolver of the single root field;
+// graphql.Execute on such a document = execution of one event)
+var subscriptionDocs = []argDoc{
+	{`subscription {f(k: 1)}`, []map[string]interface{}{{}}},
+	{`subscription {a: plain}`, []map[string]interface{}{{}}},
+	// aliased root fields whose resolver has no outcome for these arguments: the error's path is the alias
+	{`subscription {a: f(k: 3)}`, []map[string]interface{}{{}}},
+	{`subscription {z: g(k: 7)}`, []map[string]interface{}{{}}},
+	{`subscription($n: Int) {b: o(id: "zz") {h(k: $n)}}`, []map[string]interface{}{{}, {"n": 1}}},
+	{`subscription($n: Int) {f(k: $n)}`, []map[string]interface{}{{}, {"n": 1}, {"n": 2}, {"n": nil}, {"n": "1"}, {"n": 1.5}}},
+	{`subscription($n: Int!) {g(k: $n)}`, []map[string]interface{}{{}, {"n": 1}, {"n": 2}, {"n": nil}}},
+	{`subscription($n: Int = 2) {g(k: $n)}`, []map[string]interface{}{{}, {"n": 1}, {"n": nil}}},
+	{`subscription {o(id: "a") {h plain}}`, []map[string]interface{}{{}}},
+	{`subscription {d(s: "x")}`, []map[string]interface{}{{}}},
+	{`subscription {l(xs: [1, 2])}`, []map[string]interface{}{{}}},
+	{`subscription {plain @skip(if: true)}`, []map[string]interface{}{{}}},
+	{`subscription {plain @include(if: true)}`, []map[string]interface{}{{}}},
+	{`subscription($b: Boolean!) {plain @include(if: $b)}`, []map[string]interface{}{{"b": true}, {"b": false}, {}}},
+	{`subscription($b: Boolean = true) {plain @skip(if: $b)}`, []map[string]interface{}{{}, {"b": false}, {"b": nil}}},
+	{`subscription {...F} fragment F on Q {d(s: "x")}`, []map[string]interface{}{{}}},
+	{`subscription {...F @skip(if: true)} fragment F on Q {plain}`, []map[string]interface{}{{}}},
+	{`subscription {... on Q {plain}}`, []map[string]interface{}{{}}},
+	{`subscription {... @include(if: false) {plain}}`, []map[string]interface{}{{}}},
+	{`subscription {__typename}`, []map[string]interface{}{{}}},
+	{`subscription {plain f(k: 1)}`, []map[string]interface{}{{}}},
+	{`subscription {plain plain}`, []map[string]interface{}{{}}},
+	{`subscription {plain b: plain @skip(if: true)}`, []map[string]interface{}{{}}},
+	{`query {plain}`, []map[string]interface{}{{}}},
+	{`{f(k: 2)}`, []map[string]interface{}{{}}},
+	{`subscription A {plain} subscription B {f(k: 1)}`, []map[string]interface{}{{}}},
+	{`subscription A {plain} query B {f(k: 1)}`, []map[string]interface{}{{}}},
+	{`subscription {zz}`, []map[string]interface{}{{}}},
+	{`subscription {plain {zz}}`, []map[string]interface{}{{}}},
+}
+
+// GenerateSubscription draws a subscription request over the argument family's schema.
+func GenerateSubscription(r *rng.R) *Input {
+	s, _, tbl := argFamilyParts()
+	s.subscription = s.query
+	d := subscriptionDocs[r.Intn(len(subscriptionDocs))]
+	vars := d.vars[r.Intn(len(d.vars))]
+	return &Input{Schema: s, Text: d.text, OpName: rng.Pick(r, []string{"", "", "", "", "", "", "A", "B", "C"}), Vars: vars, table: tbl}
+}
+
 func GenerateArgs(r *rng.R) *Input {
 	s, docs, tbl := argFamilyParts()
 	docs = append(docs, extraArgDocs...)
@@ -147,3 +192,54 @@ func (in *Input) NewWorld(r *rng.R, doc *ast.Document) *World {
 
 // Observe encodes Response.Data (ordered JSON) and Errors[].Path/.Locations.
 func Observe(resp *graphql.Response) sexp.Node { return observe(resp) }
+
+// ---- asynchronous resolvers (C03 only) ----
+
+// AsyncHook, when set, receives every resolver answer of the generated schemas and may hand it
+// back wrapped in a promise.
+var AsyncHook func(v interface{}, err error) (interface{}, error)
+
+// Scheduler turns about half of the resolver answers into promises and is the request's idle
+// handler: every idle round fulfils at least one outstanding promise (all of them in order, the
+// newest one, or a random one — fixed per case).
+type Scheduler struct {
+	r       *rng.R
+	mode    int
+	pending []func()
+	Rounds  int
+}
+
+func NewScheduler(r *rng.R) *Scheduler { return &Scheduler{r: r, mode: r.Intn(3)} }
+
+func (s *Scheduler) Hook(v interface{}, err error) (interface{}, error) {
+	if !s.r.Chance(1, 2) {
+		return v, err
+	}
+	ch := make(graphql.ResolvePromise, 1)
+	s.pending = append(s.pending, func() { ch <- graphql.ResolveResult{Value: v, Error: err} })
+	return ch, nil
+}
+
+func (s *Scheduler) Idle() {
+	s.Rounds++
+	if len(s.pending) == 0 {
+		panic("harness: idle handler called without outstanding promise")
+	}
+	switch s.mode {
+	case 0:
+		p := s.pending
+		s.pending = nil
+		for _, f := range p {
+			f()
+		}
+	case 1:
+		f := s.pending[len(s.pending)-1]
+		s.pending = s.pending[:len(s.pending)-1]
+		f()
+	default:
+		i := s.r.Intn(len(s.pending))
+		f := s.pending[i]
+		s.pending = append(s.pending[:i], s.pending[i+1:]...)
+		f()
+	}
+}
